@@ -28,9 +28,7 @@ def confirm(args):
     if not os.path.exists(f'{src}/patch.diff'):
         return pid, k, None
     wt = f'/tmp/mutwt/{slot}'
-    if not os.path.exists(wt):
-        sh(f'git -C /repo worktree add --detach {wt} HEAD -q', '/')
-    sh('git checkout -q --detach $(git -C /repo rev-parse HEAD) && git checkout -- . && git clean -fdq', wt)
+    sh('git reset -q --hard; git checkout -q --detach $(git -C /repo rev-parse HEAD) && git reset -q --hard && git clean -fdq', wt)
     meta = {'property': pid, 'mutation': f'm{k}', 'repo_head': sh('git rev-parse --short HEAD', '/repo')[1].strip()}
     demo = 'demo.py' if os.path.exists(f'{src}/demo.py') else 'test_demo.py'
     os.makedirs(f'{wt}/out/m{k}', exist_ok=True)
@@ -73,6 +71,14 @@ def main():
     by_slot = {}
     for j in jobs:
         by_slot.setdefault(j[2], []).append(j)
+
+    sh('git -C /repo worktree prune', '/')
+    for slot_ in by_slot:       # serially: concurrent `git worktree add` calls race on the shared lock
+        wt = f'/tmp/mutwt/{slot_}'
+        if not os.path.exists(wt):
+            rc, out = sh(f'git -C /repo worktree add -f --detach {wt} HEAD -q', '/')
+            if rc != 0:
+                sys.exit('cannot create scratch worktree: ' + out)
 
     def run_slot(js):
         return [confirm(j) for j in js]
